@@ -432,6 +432,10 @@ impl Registrations {
         let namespace = new_registration.namespace;
         let registration_id = RegistrationId::new();
 
+        // A refresh supersedes the previous registration for this (peer, namespace): drop it, so
+        // that it neither lingers in `registrations` nor is reported as expired later.
+        self.remove(namespace.clone(), peer);
+
         self.registrations_for_peer.insert(
             (new_registration.record.peer_id(), namespace.clone()),
             registration_id,
